@@ -457,7 +457,7 @@ def run_pipeline(
                 buckets_data_tree = partial_datatree_2d
             else:
                 buckets_data_tree = xr.map_over_datasets(
-                    lambda *data: xr.merge(data),  # function
+                    lambda *data: xr.concat(data, dim="time"),  # function
                     buckets_data_tree,
                     partial_datatree_2d,
                 )
